@@ -701,7 +701,9 @@ class Remote:
         if self.rr:
             caps.append((wire.CAP_RR, b''))
         caps += self.extra_caps
-        return wire.encode_open(self.asn if self.asn < 65536 else wire.AS_TRANS, self.hold, self.router_id, caps)
+        asn2 = self.asn if self.asn < 65536 else wire.AS_TRANS
+        size = sum(4 + len(v) for _, v in caps)
+        return wire.encode_open(asn2, self.hold, self.router_id, caps, style='extended' if size > 255 else 'one-per-param')
 
     def send(self, mtype: int, body: bytes = b'') -> None:
         self.sock.feed(wire.frame(mtype, body))
